@@ -194,13 +194,13 @@ def revisionSuffix (s : List Char) : Option (List Char) :=
         | d :: more =>
           if ('1' ≤ d && d ≤ '9') && more.all (fun x => '0' ≤ x && x ≤ '9') then some (d :: more) else none
 
-/-- `ParseChainID`; the Go code panics when the revision does not fit 64 bits (`none`) -/
-def parseChainID (s : String) : Option Nat :=
+/-- `ParseChainID`: a revision suffix that does not fit 64 bits is not a revision number (revision 0) -/
+def parseChainID (s : String) : Nat :=
   match revisionSuffix s.toList with
-  | none => some 0
+  | none => 0
   | some ds =>
     let v := Nat.ofDigitChars 10 ds 0
-    if v < 2 ^ 64 then some v else none
+    if v < 2 ^ 64 then v else 0
 
 /-- `ClientState.Validate`; `none` = valid. (`MaxChainIDLen` = 50; trust level arithmetic in `Nat`.) -/
 def ClientState.validate (cs : ClientState) : Option String :=
@@ -210,17 +210,14 @@ def ClientState.validate (cs : ClientState) : Option String :=
   else if cs.trustingPeriod ≤ 0 then some "invalid-trusting-period"
   else if cs.unbondingPeriod ≤ 0 then some "invalid-unbonding-period"
   else if cs.maxClockDrift ≤ 0 then some "invalid-max-clock-drift"
-  else match parseChainID cs.chainId with
-    | none => some "panic"
-    | some rev =>
-      if cs.latest.rev.toNat ≠ rev then some "invalid-header-height"
-      else if cs.latest.h = 0 then some "invalid-header-height"
-      else if cs.trustingPeriod ≥ cs.unbondingPeriod then some "invalid-trusting-period"
-      else match cs.proofSpecs with
-        | none => some "invalid-proof-specs"
-        | some _ =>
-          if cs.upgradePath.any isBlank then some "invalid-client"
-          else none
+  else if cs.latest.rev.toNat ≠ parseChainID cs.chainId then some "invalid-header-height"
+  else if cs.latest.h = 0 then some "invalid-header-height"
+  else if cs.trustingPeriod ≥ cs.unbondingPeriod then some "invalid-trusting-period"
+  else match cs.proofSpecs with
+    | none => some "invalid-proof-specs"
+    | some _ =>
+      if cs.upgradePath.any isBlank then some "invalid-client"
+      else none
 
 /-- `ConsensusState.ValidateBasic` (hex strings: 32 bytes = 64 digits; sentinel root allowed) -/
 def sentinelRootHex : String := "73656e74696e656c5f726f6f74"
@@ -316,7 +313,6 @@ def createClient (w : World) (cs : ClientState) (c : ConsState) : World × Strin
   let cid := w.nextSeq
   let w1 := { w with nextSeq := w.nextSeq + 1 }
   match cs.validate with
-  | some "panic" => (w1, "panic")
   | some e => (w1, "err:" ++ e)
   | none =>
     match c.validateBasic with
@@ -374,7 +370,6 @@ def verifyUpgradeAndUpdateState (cs : ClientState) (s : Store) (u : UpgradeReq) 
             frozen := Height.zero, latest := u.newClient.latest, proofSpecs := u.newClient.proofSpecs,
             upgradePath := u.newClient.upgradePath, allowExpiry := false, allowMisb := false }
         match newCs.validate with
-        | some "panic" => (s, "panic")
         | some e => (s, "err:" ++ e)
         | none =>
           let newCons : ConsState := ⟨u.newCons.ts, sentinelRootHex, u.newCons.nvh⟩
@@ -426,7 +421,7 @@ def recoverStore (sj sb : Store) (now : Int) : Store × String :=
       | none => (sj, "err:client-not-found")
       | some scs => checkSubstituteAndUpdateState cs sj sb scs now
 
-/-- `verifyDelayPeriodPassed` (64-bit wrap-around of the two sums as in the Go code) -/
+/-- `verifyDelayPeriodPassed` (the two sums are 64-bit; a sum that wraps around never passes) -/
 def verifyDelayPeriodPassed (s : Store) (r : MembershipReq) (now : Int) (self : Height) : Option String :=
   let e1 :=
     if r.delayTime != 0 then
@@ -434,7 +429,7 @@ def verifyDelayPeriodPassed (s : Store) (r : MembershipReq) (now : Int) (self : 
       | none => some "processed-time-not-found"
       | some pt =>
         let validTime : UInt64 := UInt64.ofNat pt + r.delayTime
-        if UInt64.ofNat now.toNat < validTime then some "delay-period-not-passed" else none
+        if validTime < UInt64.ofNat pt || UInt64.ofNat now.toNat < validTime then some "delay-period-not-passed" else none
     else none
   match e1 with
   | some e => some e
@@ -444,7 +439,7 @@ def verifyDelayPeriodPassed (s : Store) (r : MembershipReq) (now : Int) (self : 
       | none => some "processed-height-not-found"
       | some ph =>
         let validHeight : Height := ⟨ph.rev, ph.h + r.delayBlocks⟩
-        if self.lt validHeight then some "delay-period-not-passed" else none
+        if validHeight.h < ph.h || self.lt validHeight then some "delay-period-not-passed" else none
     else none
 
 /-- `Keeper.VerifyMembership` / `VerifyNonMembership` + `ClientState.verify(Non)Membership` (read-only) -/
